@@ -455,7 +455,11 @@ func (d *Decoder) decodeSet(mem MemCache, msg *Message) error {
 	minLen := 5
 	if setHeader.FlowSetID > 255 && err == nil {
 		if minLen = tr.recordLen(); minLen < 1 {
-			minLen = 1
+			// records without any octets can not be delimited
+			err = nonfatalError(fmt.Errorf("%s netflow template id# %d describes empty records",
+				d.raddr.String(),
+				setHeader.FlowSetID,
+			))
 		}
 	}
 
